@@ -117,6 +117,12 @@ def copyOntoP (p : PState) (src dst : Ref) : Option PState :=
     | _, _ => none
   else none
 
+/-- `cif_value_clean` of the object at a reference (`set_element_at` / `set_item` with a NULL value) -/
+def cleanP (p : PState) (r : Ref) : Option PState :=
+  match getP p r with
+  | some _ => putP p r .unk
+  | none => none
+
 def emptyNames : List (Str × Option Str) → Option (List (Str × Str))
   | [] => some []
   | (n, some nk) :: rest => (emptyNames rest).map (fun l => (n, nk) :: l)
@@ -159,7 +165,7 @@ def stepP? (p : PState) : HOp → Option PState
       | some (.lst vs) =>
         if i < vs.length then
           match src with
-          | none => putP p (r.member (.idx i)) .unk
+          | none => cleanP p (r.member (.idx i))
           | some s => copyOntoP p s (r.member (.idx i))
         else none
       | _ => none
@@ -199,7 +205,7 @@ def stepP? (p : PState) : HOp → Option PState
           match putP p r (.tbl (mapReplace es nk key e.2.2)) with
           | some p1 =>
             match src with
-            | none => putP p1 (r.member (.key nk)) .unk
+            | none => cleanP p1 (r.member (.key nk))
             | some s => copyOntoP p1 s (r.member (.key nk))
           | none => none
       | _, _ => none
@@ -370,6 +376,12 @@ def cleanInitAt (fuel : Nat) (h : Heap) (t : Nat) (kind : Nat) : Option Heap :=
     | (hv, h2) => putHV h2 t hv
   | none => none
 
+/-- the `size` field of a list object; while `elements` is NULL (capacity 0) it is 0 -/
+def lstSize (elems : Option Nat) (size : Nat) : Nat :=
+  match elems with
+  | none => 0
+  | some _ => size
+
 /-- the element handed to a container -/
 def srcH (s : HState) : Option Ref → Option (Option Nat)
   | none => some none
@@ -469,8 +481,8 @@ def stepH? (fuel : Nat) (s : HState) : HOp → Option HState
       match resolveRef s r with
       | some la =>
         match getHV s.h la with
-        | some (.lst _ size) =>
-          if i < size then
+        | some (.lst elems size) =>
+          if i < lstSize elems size then
             match src with
             | none =>
               match resolveRef s (r.member (.idx i)) with
@@ -487,8 +499,8 @@ def stepH? (fuel : Nat) (s : HState) : HOp → Option HState
       | some la, some x =>
         match getHV s.h la with
         | some (.lst elems size) =>
-          if i ≤ size then
-            match listInsertAddrH fuel s.h (.lst elems size) i x with
+          if i ≤ lstSize elems size then
+            match listInsertAddrH fuel s.h (.lst elems (lstSize elems size)) i x with
             | some (hv', h1) => (putHV h1 la hv').map (fun h' => { s with h := h' })
             | none => none
           else none
@@ -501,7 +513,7 @@ def stepH? (fuel : Nat) (s : HState) : HOp → Option HState
       | some la =>
         match getHV s.h la with
         | some (.lst elems size) =>
-          if i < size then
+          if i < lstSize elems size then
             match listRemoveH fuel s.h (.lst elems size) i dst.isSome with
             | some (hv', x, h1) =>
               match putHV h1 la hv' with
